@@ -183,11 +183,15 @@ fn stringify_children<'s, W: FmtWrite>(
 ) -> FmtResult {
     for (i, child) in children.iter().enumerate() {
         child.stringify_write(stringifier)?;
-        if let Node::Text(..) = child {
-            let next_printed = children[i + 1..]
-                .iter()
-                .find(|x| !matches!(x, Node::Comment(..)));
-            if let Some(Node::Text(..)) = next_printed {
+        // (text that prints nothing neither needs nor provides separation)
+        let prints_text = |x: &Node| matches!(x, Node::Text(v) if !is_empty_value(v));
+        if prints_text(child) {
+            let next_printed = children[i + 1..].iter().find(|x| match x {
+                Node::Comment(..) => false,
+                Node::Text(v) => !is_empty_value(v),
+                _ => true,
+            });
+            if next_printed.map(prints_text).unwrap_or(false) {
                 stringifier.write_str("<!---->")?;
             }
         }
